@@ -28,14 +28,22 @@ func (h *ramHarness) stats() {
 
 // pump lets the manager run: every Stats() is one loop iteration; notifications are recorded as ops
 func (h *ramHarness) pump() {
-	for k := 0; k < 60; k++ {
-		fits := false
-		for _, n := range h.pending {
+	deadline := time.Now().Add(3 * time.Second)
+	for k := 0; ; k++ {
+		fits, mustCome := false, false
+		for id, n := range h.pending {
 			if n <= h.avail {
 				fits = true
+				// a request whose cancel channel is still open cannot be dropped: its grant will come, however
+				// long the loaded machine takes to schedule the manager
+				select {
+				case <-h.cancelCs[id]:
+				default:
+					mustCome = true
+				}
 			}
 		}
-		if !fits {
+		if !fits || (k >= 60 && !mustCome) || time.Now().After(deadline) {
 			return
 		}
 		_ = h.m.Stats()
@@ -49,6 +57,34 @@ func (h *ramHarness) pump() {
 		case <-time.After(300 * time.Microsecond):
 		}
 	}
+}
+
+// settle records an observation point: the grants that happened before it, then the statistics.  The
+// statistics are read twice with a look at the notification channel in between; only a stable pair is
+// recorded, so a grant can never fall between "no notification seen" and the numbers that already include it.
+func (h *ramHarness) settle() {
+	for tries := 0; tries < 2000; tries++ {
+		h.pump()
+		s1 := h.m.Stats()
+		select {
+		case id := <-h.notifyC:
+			n := h.pending[id]
+			delete(h.pending, id)
+			h.live[id] = n
+			h.avail -= n
+			h.in = append(h.in, 4, id)
+			continue
+		default:
+		}
+		s2 := h.m.Stats()
+		if s1 == s2 {
+			h.in = append(h.in, 5) // observation point: the manager is quiescent
+			h.obs = append(h.obs, s2.AllocatedSize, int64(s2.AllocatedObjects), int64(s2.PendingKeys))
+			return
+		}
+	}
+	h.in = append(h.in, 5)
+	h.stats()
 }
 
 func genRam(r *rand.Rand, tier string) Case {
@@ -86,7 +122,7 @@ func genRam(r *rand.Rand, tier string) Case {
 				} else {
 					out = 0 // queued (a closed-cancel request may also have been dropped: it stays optional in the model)
 				}
-			case <-time.After(150 * time.Millisecond):
+			case <-time.After(3 * time.Second): // generous: "stuck" must not be an artefact of a loaded machine
 			}
 			if out == 0 {
 				h.pending[id] = n
@@ -118,9 +154,7 @@ func genRam(r *rand.Rand, tier string) Case {
 				break
 			}
 		}
-		h.pump()
-		h.in = append(h.in, 5) // observation point: the manager is quiescent
-		h.stats()
+		h.settle()
 	}
 	return Case{In: h.in, Obs: h.obs}
 }
